@@ -62,6 +62,9 @@ class PathMutModel(setters.SetterModel):
                 return [('', Aff({}, int(not lit)), [])]
         if name == 'common::parse::first_segment_has_colon' and isinstance(a0, tuple) and a0 and a0[0] == 'lit':
             return [('', Aff({}, int(b':' in a0[1].split(b'/')[0])), [])]
+        if name == 'common::parse::looks_like_scheme' and isinstance(a0, tuple) and a0 and a0[0] == 'lit':
+            from . import lang
+            return [('', Aff({}, int(bool(lang.predicate_dfa('looks-like-scheme', False).accepts(list(a0[1]))))), [])]
         if base in ('eq', 'ne') and len(args) == 2 and isinstance(a0, tuple) and a0 and a0[0] == 'plastbytes':
             return [('', ('cond', ('opaque', 'last segment == constant')), [])]
         # byte of the buffer at a symbolic position (pop's backward search)
